@@ -444,6 +444,7 @@ def import_header(unit, fn, stack=()):
         return _import_cache[key]
     path = os.path.join(UNITS, unit + ".rs")
     lines = open(path).read().split("\n")
+    has_as = any(l.strip().startswith("//@ extract ") and (" as=%s " % fn) in (l + " ") for l in lines)   # a renamed item (N15) is imported by its new name
     i = 0
     while i < len(lines):
         st = lines[i].strip()
@@ -458,7 +459,7 @@ def import_header(unit, fn, stack=()):
             while lines[j].strip() != "//@ end":
                 region.append(lines[j])
                 j += 1
-            if name == fn:
+            if (opts.get("as") == fn) or (name == fn and not has_as):
                 pieces = parse_region("\n".join(region) + "\n")
                 real, info = extract_real(file_, kind, name, opts)
                 text, changed = merge(pieces, real)
